@@ -9,7 +9,7 @@ AT = [(r'm_count\.load\(\)', 'atomic_load(this)', 0), (r'm_count\.compare_exchan
 TARGETS = [
     Target('try_subtract', TC, r'inline bool semaphore::try_subtract\(uint64_t count\)', rules=AT + [(r'^\{', '{ uint64_t TAKEN0_ = MY_TAKEN;', 1)],
            marks={'count': 1, 0: dict(name='TS', frame=['mc', 'new_mc', 'N_CAS_FAIL', 'LAST_SEEN', 'HAVE_SEEN', 'this'], effects={'atomic_cas': ['N_CAS_FAIL', 'this'], 'atomic_load': ['LAST_SEEN', 'HAVE_SEEN', 'this']}, pure=[])}),
-    Target('signal', TH, r'int signal\(uint64_t count\) (?=\{\s*if \(count == 0\) return 0;\s*SCOPED_LOCK\(splock\);)', rules=AT + [
+    Target('signal', TH, r'int signal\(uint64_t count\) (?=\{)', rules=AT + [(r'(?<![\w>.])q\.th\b', 'QTH_READ(this)', 0),
         (r'(?<![\w>.])try_resume\(', 'SEM_try_resume(this, ', 1)],
         defers=dict(rettype='int', scoped_lock=('spin_lock(this) /* {0} */', 'spin_unlock(this) /* {0} */'))),
     Target('wait_interruptible', TC, r'int semaphore::wait_interruptible\(uint64_t count, Timeout timeout\)', rules=AT + [
